@@ -229,6 +229,42 @@ def run_history(case, ctx):
         if len(names) != ref.powers_.shape[0] or E is None or not numpy.array_equal(E, ref.powers_):
             ctx.violation("C11/history/names", "feature names after step %d do not name the monomials" % step,
                           cfg=cfg, names=names[:6])
+        # the same array object refilled in place between two calls
+        buf = X2.astype(float)
+        m.transform(buf)
+        buf[:] = buf[::-1] * 0.5 + 1
+        ctx.hit("history.buffer_refilled_in_place")
+        g, e = m.transform(buf), ref.transform(buf)
+        if g.shape != e.shape or not numpy.allclose(g, e, rtol=1e-12, atol=1e-15):
+            ctx.violation("C11/history/values-differ/buffer-refilled-in-place", "transform of an array refilled in place "
+                          "returns the monomials of its previous content", cfg=cfg)
+        # a fit that validation refuses (NaN) on a matrix of another width, then the instance is used again:
+        # whatever transform returns is the monomials of what it was given
+        if rng.rand() < 0.5:
+            nw = n + int(rng.randint(1, 3)) if rng.rand() < 0.5 or n == 1 else n - 1
+            Xw = rng.randn(4, nw) * 2
+            Xbad = Xw.copy()
+            Xbad[0, 0] = numpy.nan
+            try:
+                m.fit(Xbad)
+                refused = False
+            except Exception:
+                refused = True
+            if refused:
+                ctx.hit("history.refused_fit")
+                for Z in (X.astype(float), Xw):
+                    try:
+                        g = m.transform(Z)
+                        nout = m.n_output_features_
+                    except Exception:
+                        continue
+                    e = PolynomialFeatures(degree=d, interaction_only=io, include_bias=bias).fit_transform(Z)
+                    if g.shape != e.shape or not numpy.allclose(g, e, rtol=1e-12, atol=1e-15) or nout != e.shape[1]:
+                        ctx.violation("C11/history/values-differ/after-refused-fit", "after a fit refused by validation "
+                                      "(width %d, previous width %d) transform of a width-%d matrix returns shape %r "
+                                      "(n_output_features_=%r), PolynomialFeatures gives %r" % (
+                                          nw, n, Z.shape[1], g.shape, nout, e.shape), cfg=cfg)
+                        break
     if len(hist) >= 3 and len({h["n_features"] for h in hist}) >= 2:
         ctx.nontriv("history", hist)
     ctx.cls("history")
